@@ -8,6 +8,9 @@ From SU.Spec Require Import MidiSpec.
 From SU.Props Require C18.
 From SU.Proofs Require Import MidiExtraProofs.
 From SU.Proofs Require Import MidiKillers.
+From SU.Proofs Require Import MidiKillers2.
+From SU.Spec Require Import RunSpec.
+From SU.Proofs Require Import MidiLiftProofs.
 Open Scope Z_scope.
 
 (** pitch bend on the listened channel from ANY state: only the bend output changes *)
@@ -67,6 +70,59 @@ Theorem C18_pitch_bend_value : forall x, 0 <= x <= 16383 ->
   = rnd (IZR v / IZR (if 0 <? v then 8191 else 8192)).
 Proof. exact pitch_bend_value. Qed.
 
+(** "interleaved with note traffic": a note-on changes none of the eight controller outputs *)
+Theorem C18_note_on_keeps_controllers : forall r n v,
+  ctrl8 (handle_note_on r n v) = ctrl8 r.
+Proof. exact C18_note_on_keeps_controllers. Qed.
+
+(** nor does a note-off *)
+Theorem C18_note_off_keeps_controllers : forall r n,
+  ctrl8 (handle_note_off r n) = ctrl8 r.
+Proof. exact C18_note_off_keeps_controllers. Qed.
+
+(** nor the edge polls *)
+Theorem C18_polls_keep_controllers : forall r,
+  ctrl8 (snd (rx_rising_gate r)) = ctrl8 r /\ ctrl8 (snd (rx_falling_gate r)) = ctrl8 r.
+Proof. exact C18_polls_keep_controllers. Qed.
+
+(** nor the mode setters *)
+Theorem C18_mode_setters_keep_controllers : forall r p b,
+  ctrl8 (rx_set_prio r p) = ctrl8 r /\ ctrl8 (rx_set_retrig r b) = ctrl8 r.
+Proof. exact C18_mode_setters_keep_controllers. Qed.
+
+(** one step, all eight outputs: each is overwritten by its own controller (or pitch bend), reset by CC 121, and kept by everything else *)
+Theorem C18_controllers_step : forall r o,
+  let c := r_channel r in
+  ctrl8 (fst (mstep r o)) =
+  (upd (pb_write c o) (r_pitch_bend r),
+   upd (cc_write c 1 o) (r_mod_wheel r),
+   upd (cc_write c 7 o) (r_volume r),
+   upd (cc_write c 71 o) (r_cutoff r),
+   upd (cc_write c 74 o) (r_resonance r),
+   upd (cc_write c 5 o) (r_porta_time r),
+   upd (sw_write c 65 o) (r_porta_en r),
+   upd (sw_write c 64 o) (r_sustain_en r)).
+Proof. exact C18_controllers_step. Qed.
+
+(** trace level: after ANY history of messages, polls and mode changes every controller output is the value written by the most recent message that addresses it (power-on default if none) *)
+Theorem C18_controllers_trace : forall ch h,
+  ctrl8 (mrun ch h) = ctrl_spec (Z.min ch 15) h.
+Proof. exact C18_controllers_trace. Qed.
+
+(** the same at byte level *)
+Theorem C18_controllers_trace_bytes : forall ch ops,
+  ctrl8 (rx_run (rx_new ch) ops) = ctrl_spec (Z.min ch 15) (lift Idle ops).
+Proof. exact C18_controllers_trace_bytes. Qed.
+
+(** non-vacuity *)
+Theorem C18_controllers_trace_example :
+  let r := mrun 2 k2_example_history in
+  let r' := mrun 2 (k2_example_history ++ [OMsg (MControlChange 2 121 0)]) in
+  r_pitch_bend r = f_1 /\ r_volume r = f_1 /\ r_mod_wheel r = f_0 /\
+  r_porta_en r = true /\ r_sustain_en r = false /\ r_gate r = false /\
+  r_pitch_bend r' = f_0 /\ r_volume r' = f_0 /\ r_sustain_en r' = true.
+Proof. exact C18_controllers_trace_example. Qed.
+
 Print Assumptions C18_pitch_bend_any_state.
 Print Assumptions C18_pitch_bend_views.
 Print Assumptions C18_other_channel_cc.
@@ -74,3 +130,11 @@ Print Assumptions C18_other_channel_pitch_bend.
 Print Assumptions C18_all_notes_off.
 Print Assumptions C18_unknown_controller_ignored.
 Print Assumptions C18_pitch_bend_value.
+Print Assumptions C18_note_on_keeps_controllers.
+Print Assumptions C18_note_off_keeps_controllers.
+Print Assumptions C18_polls_keep_controllers.
+Print Assumptions C18_mode_setters_keep_controllers.
+Print Assumptions C18_controllers_step.
+Print Assumptions C18_controllers_trace.
+Print Assumptions C18_controllers_trace_bytes.
+Print Assumptions C18_controllers_trace_example.
